@@ -37,6 +37,33 @@ def leg_a(ctx):
     ]
 
 
+def apalache(ctx):
+    """inductive invariant of the abstract loop for a SYMBOLIC bound (every MaxIter, not only the value TLC enumerates):
+    Init => IndInv, IndInv /\\ Next => IndInv', and the termination measure MaxIter - n strictly decreases while looping.
+    Thorough tier only; a timeout is reported, an error is a machinery failure."""
+    import shutil
+    import subprocess
+    if shutil.which("apalache-mc") is None:
+        return {"ran": False, "why": "apalache-mc not on PATH"}, []
+    out_dir = os.path.join(ctx.work, "apalache")
+    res, fails = {"ran": True, "obligations": []}, []
+    obligations = [("base", ["--init=AInit", "--inv=IndInv", "--length=0"]),
+                   ("inductive_step", ["--init=IndInv", "--inv=IndInv", "--length=1"]),
+                   ("measure_decreases", ["--init=IndInv", "--inv=MeasureDecreases", "--length=1"])]
+    for name, args in obligations:
+        cmd = ["apalache-mc", "check", "--cinit=CInit", "--next=ANext", "--out-dir=" + out_dir] + args + ["FluxLoopApa.tla"]
+        try:
+            p = subprocess.run(cmd, cwd=tlc.TLA_DIR, stdout=subprocess.PIPE, stderr=subprocess.STDOUT, text=True, timeout=300)
+            ok = "EXITCODE: OK" in p.stdout
+            res["obligations"].append({"name": name, "discharged": ok})
+            if not ok:
+                fails.append("apalache obligation %s not discharged: %s" % (name, p.stdout[-300:]))
+        except subprocess.TimeoutExpired:
+            res["obligations"].append({"name": name, "discharged": False, "timeout": True})
+    shutil.rmtree(out_dir, ignore_errors=True)
+    return res, fails
+
+
 def hunt(ctx, scs):
     """TLC over the reference map: which scenarios run into the bound (NotStuck violated)?"""
     inp = os.path.join(ctx.work, "hunt_inputs.ndjson")
@@ -72,6 +99,10 @@ def run(ctx, pool):
         lasso = {"inputs": len(stuck[:3]), "violated": r2.violated_names(), "states": r2.distinct}
         if "Terminates" not in r2.violated_names():
             failures.append("unbounded reference machine did not exhibit a lasso on the stuck inputs: %s %s" % (r2.violated_names(), r2.errors[:1]))
+    apa = {"ran": False, "why": "thorough tier only"}
+    if not ctx.quick:
+        apa, afails = apalache(ctx)
+        failures.extend(afails)
     # ---- leg C + B: replay the stuck inputs, and random calls, on the real solver
     jobs = []
     adv = [scs[j] for j in stuck]
@@ -111,6 +142,7 @@ def run(ctx, pool):
                 "evaluations, or a replayed stuck input",
         "hunt": {"scenarios": len(scs), "stuck_on_reference_map": len(stuck), "states": r_hunt.distinct,
                  "replayed_on_code": n_adv, "code_gave_up_or_raised": gaveup, "lasso_check": lasso},
+        "apalache_inductive_invariant_symbolic_bound": apa,
         "events": hist, "outcomes": stats["outcomes"], "max_evaluations_in_one_call": max([stats.get("max_n", 0)] + [nn for (_, nn) in replay_out]),
         "clauses": CLAUSES,
         "samples": [tw.traces[0][:5] + tw.traces[0][-2:], tw.traces[-1][:6]],
